@@ -3,7 +3,7 @@
 import json, os, shutil, sys, glob
 pid, m, det = sys.argv[1], sys.argv[2], sys.argv[3]
 ported = sys.argv[4] if len(sys.argv) > 4 else None
-src, dst = f"/tmp/seed/{pid}/{m}", f"/verif/seeded/{pid}-{m}"
+src, dst = os.environ.get("SEEDROOT", "/tmp/seed") + f"/{pid}/{m}", f"/verif/seeded/{pid}-" + os.environ.get("SEEDTAG", "") + m
 os.makedirs(dst, exist_ok=True)
 for f in glob.glob(src + "/*"):
     shutil.copy(f, dst)
